@@ -207,3 +207,54 @@ package knxnet
 //@   ensures (err == nil) == (req != nil)
 //@   ensures req != nil ==> fresh(req)
 //@   assigns nothing
+
+// ---------- C16: sockets ----------
+
+//@ spec validSrv(srv ServicePackable) bool = srv != nil && (typeis(srv, *TunnelReq) ==> cemi.validMsg(srv.(*TunnelReq).Payload)) && (typeis(srv, *RoutingInd) ==> cemi.validMsg(srv.(*RoutingInd).Payload)) && (typeis(srv, *DeviceInformationBlock) ==> len(srv.(*DeviceInformationBlock).HardwareAddr) == 6) && (typeis(srv, *SearchRes) ==> len(srv.(*SearchRes).DescriptionB.DeviceHardware.HardwareAddr) == 6 && len(srv.(*SearchRes).DescriptionB.SupportedServices.Families) <= 5) && (typeis(srv, *DescriptionRes) ==> len(srv.(*DescriptionRes).DeviceHardware.HardwareAddr) == 6 && len(srv.(*DescriptionRes).SupportedServices.Families) <= 5) && (typeis(srv, *SupportedServicesDIB) ==> len(srv.(*SupportedServicesDIB).Families) <= 5)
+
+//@ func (sock *TunnelSocket) Send(payload ServicePackable) (err error)
+//@   props C16 C15
+//@   ghost nwrite lastwrite.base lastwrite.len
+//@   timeout 120
+//@   requires sock.conn != nil && validSrv(payload)
+//@   requires payload.Size() <= 65529
+//@   ensures [one.write] gcount("nwrite") == old(gcount("nwrite")) + 1 && uint(gval("lastwrite.len")) == 6 + payload.Size()
+//@   ensures [header] wbyte(0) == 6 && wbyte(1) == 16 && uint(wbyte(4))<<8 | uint(wbyte(5)) == uint(gval("lastwrite.len"))
+//@   ensures [private] fresh(gval("lastwrite.base"))
+//@   assigns nothing
+
+//@ func (sock *RouterSocket) Send(payload ServicePackable) (err error)
+//@   props C16 C15
+//@   ghost nwrite lastwrite.base lastwrite.len
+//@   timeout 120
+//@   requires sock.conn != nil && validSrv(payload)
+//@   requires payload.Size() <= 65529
+//@   ensures [one.write] gcount("nwrite") == old(gcount("nwrite")) + 1 && uint(gval("lastwrite.len")) == 6 + payload.Size()
+//@   ensures [header] wbyte(0) == 6 && wbyte(1) == 16 && uint(wbyte(4))<<8 | uint(wbyte(5)) == uint(gval("lastwrite.len"))
+//@   assigns nothing
+
+//@ func serveUDPSocket(conn *net.UDPConn, addr *net.UDPAddr, inbound chan<- Service)
+//@   props C16 C01
+//@   ghost
+//@   noterm
+//@   requires conn != nil && !closed(inbound)
+//@   ensures [closed] closed(inbound) && nclose(inbound) == old(nclose(inbound)) + 1
+//@   assigns nothing
+//@   loop 0 invariant !closed(inbound) && nclose(inbound) == old(nclose(inbound))
+//@   loop 0 step [per.datagram] gcount("ndatagram") == prev(gcount("ndatagram")) + 1 && nsent(inbound) <= prev(nsent(inbound)) + 1
+//@   loop 0 assigns buffer
+//@   loop 0 ghost ndatagram nsent lastsent
+
+//@ func serveTCPSocket(conn *net.TCPConn, addr *net.TCPAddr, inbound chan<- Service)
+//@   props C16 C01
+//@   ghost
+//@   noterm
+//@   requires conn != nil && !closed(inbound)
+//@   ensures [closed] closed(inbound) && nclose(inbound) == old(nclose(inbound)) + 1
+//@   assigns nothing
+//@   loop 0 invariant !closed(inbound) && nclose(inbound) == old(nclose(inbound))
+//@   -- "does not hang": every iteration that comes back to the loop head has consumed stream bytes
+//@   loop 0 step [progress] gval("stream.pos") > prev(gval("stream.pos"))
+//@   loop 0 step [per.frame] nsent(inbound) <= prev(nsent(inbound)) + 1
+//@   loop 0 assigns nothing
+//@   loop 0 ghost stream.pos nsent lastsent
